@@ -54,8 +54,30 @@ class CopyPropagator(taps.Monitor):
 
     def post(self, ctx, st, args, kw, c, exc):
         if exc is None and c is not None:
-            align.SHADOW[id(c)] = (c, align.SHADOW[id(args[0])][1])
-            if id(args[0]) in UNRETARGETED_INVERSES:
+            o = args[0]
+            if id(c) not in align.SHADOW and type(c) is type(o):
+                # the copy is the same alignment: same source, same target (the one that was set, not one derived from the map),
+                # same options, same map
+                ctx.tap("copy_of_an_alignment", "calls"); ctx.tap("copy_of_an_alignment", "checked")
+                cls = type(o).__name__
+                try:
+                    if tx.maxdiff(c.target.points, o.target.points) > 0 or type(c.target) is not type(o.target):
+                        ctx.fail("copy_of_an_alignment_differs_from_the_original", cls=cls, mech="target", err=tx.maxdiff(c.target.points, o.target.points))
+                    if tx.maxdiff(c.source.points, o.source.points) > 0:
+                        ctx.fail("copy_of_an_alignment_differs_from_the_original", cls=cls, mech="source")
+                    if hasattr(o, "kernel") and type(c.kernel) is not type(o.kernel):
+                        ctx.fail("copy_of_an_alignment_differs_from_the_original", cls=cls, mech="kernel_class")
+                    for k_ in ("min_singular_val", "allow_mirror", "rotation"):
+                        if k_ in o.__dict__ and c.__dict__.get(k_) != o.__dict__[k_]:
+                            ctx.fail("copy_of_an_alignment_differs_from_the_original", cls=cls, mech=k_)
+                    with taps.quiet():
+                        e_ = tx.maxdiff(c.aligned_source().points, o.aligned_source().points)
+                    if not (e_ <= 1e-9 * max(1.0, float(np.abs(o.target.points).max()))):
+                        ctx.fail("copy_of_an_alignment_differs_from_the_original", cls=cls, mech="aligned_source", err=e_)
+                except Exception as ex_:
+                    ctx.fail("copy_of_an_alignment_differs_from_the_original", cls=cls, mech="cannot_be_compared:" + type(ex_).__name__)
+            align.SHADOW[id(c)] = (c, align.SHADOW[id(o)][1])
+            if id(o) in UNRETARGETED_INVERSES:
                 UNRETARGETED_INVERSES.add(id(c))
 
 
@@ -191,8 +213,8 @@ def replay_case_begin():
 def setup(ctx):
     for c in align.alignment_classes():
         taps.tap(ctx, c, "__init__", CtorRecorder(c))
-    taps.tap(ctx, taps.mod("menpo.base").Copyable, "copy", CopyPropagator())
-    taps.tap(ctx, taps.mod("menpo.transform.homogeneous.base").HomogFamilyAlignment, "copy", CopyPropagator())
+    # every class that defines copy() (found at run time: an alignment class that grows its own copy() is covered too)
+    taps.tap_definers(ctx, "copy", lambda c: CopyPropagator())
     taps.tap(ctx, taps.mod("menpo.base").Targetable, "set_target", SetTargetMonitor())
     taps.tap_definers(ctx, "pseudoinverse", lambda c: PinvPropagator())
     taps.tap(ctx, taps.mod("menpo.transform.groupalign.procrustes").GeneralizedProcrustesAnalysis, "__init__", GPAMonitor())
